@@ -9,7 +9,10 @@ package main
 import (
 	"encoding/json"
 	"fmt"
+	"os"
 	"strings"
+
+	"github.com/sarchlab/akita/v5/mem/memprotocol"
 
 	"verifharness/kit"
 	"verifharness/kit/sim"
@@ -66,13 +69,21 @@ func RunStack(c *kit.Case, cfg sim.StackCfg) {
 	r := c.R
 	s := sim.BuildStack(cfg, r.WorkDir)
 	defer s.Close()
-	tap := sim.AttachTap(s.AllPorts(), s.Engine.CurrentTime, false)
+	debug := os.Getenv("C16_DEBUG") != ""
+	tap := sim.AttachTap(s.AllPorts(), s.Engine.CurrentTime, debug)
+	var firstBad uint64
+	haveBad := false
 	total := 0
 	for _, d := range s.Drivers {
 		total += d.Spec().NumReqs
 		d := d
 		d.OnError = func(key, msg string) {
 			c.Fail("hier/"+key, map[string]any{"msg": msg, "driver": d.Name(), "cfg": cfg})
+			if debug && !haveBad {
+				haveBad = true
+				fmt.Sscanf(msg[strings.Index(msg, "addr=")+5:], "0x%x", &firstBad)
+				dumpLine(tap, firstBad, cfg)
+			}
 		}
 	}
 	s.Start()
@@ -126,4 +137,45 @@ func RunStack(c *kit.Case, cfg sim.StackCfg) {
 		c.Nontrivial(string(j))
 	}
 	c.Sample(map[string]any{"shape": shape, "cfg": cfg, "end_time_ps": s.Engine.CurrentTime()})
+}
+
+// dumpLine prints every memory message that touches the 256-byte region around addr (debug aid for replays).
+func dumpLine(tap *sim.Tap, addr uint64, cfg sim.StackCfg) {
+	lo, hi := addr/256*256, addr/256*256+256
+	ids := map[uint64]string{}
+	for _, r := range tap.Recs {
+		if r.Pos != "send" && r.Pos != "retr_in" {
+			continue
+		}
+		switch m := r.Msg.(type) {
+		case memprotocol.ReadReq:
+			if m.Address < hi && m.Address+m.AccessByteSize > lo {
+				ids[m.ID] = fmt.Sprintf("R[%#x+%d]", m.Address, m.AccessByteSize)
+				fmt.Printf("%8d %-8s %-22s RD  id=%d addr=%#x len=%d -> %s\n", r.Time, r.Pos, r.Port, m.ID, m.Address, m.AccessByteSize, m.Dst)
+			}
+		case memprotocol.WriteReq:
+			if m.Address < hi && m.Address+uint64(len(m.Data)) > lo {
+				ids[m.ID] = fmt.Sprintf("W[%#x+%d]", m.Address, len(m.Data))
+				mask := ""
+				if m.DirtyMask != nil {
+					for _, b := range m.DirtyMask {
+						if b {
+							mask += "1"
+						} else {
+							mask += "0"
+						}
+					}
+				}
+				fmt.Printf("%8d %-8s %-22s WR  id=%d addr=%#x len=%d data=%x mask=%s -> %s\n", r.Time, r.Pos, r.Port, m.ID, m.Address, len(m.Data), m.Data, mask, m.Dst)
+			}
+		case memprotocol.DataReadyRsp:
+			if what, ok := ids[m.RspTo]; ok {
+				fmt.Printf("%8d %-8s %-22s DATA rspto=%d %s data=%x\n", r.Time, r.Pos, r.Port, m.RspTo, what, m.Data)
+			}
+		case memprotocol.WriteDoneRsp:
+			if what, ok := ids[m.RspTo]; ok {
+				fmt.Printf("%8d %-8s %-22s DONE rspto=%d %s\n", r.Time, r.Pos, r.Port, m.RspTo, what)
+			}
+		}
+	}
 }
